@@ -144,7 +144,9 @@ impl Gen {
             3 => vec![PG::Call("member".into(), vec![T::Num(tag), self.q(r)])],
             4 => vec![PG::Call("append".into(), vec![self.q(r), T::list(vec![T::Num(tag)]), self.var(r)])],
             // silent divergers
-            5 | 6 => vec![PG::Never],
+            5 => vec![PG::Never],
+            // … through plain recursion of a user closure (directly / under a fresh variable): paused closures only
+            6 => vec![PG::Call("spin".into(), if r.chance(1, 2) { vec![] } else { vec![T::Var(0)] })],
             7 => vec![PG::Never, PG::Eq(self.q(r), T::Num(tag))],
             // finite goals
             8 => vec![PG::Eq(self.q(r), T::Num(tag))],
@@ -189,6 +191,8 @@ fn corpus() -> Vec<&'static str> {
     vec![
         // the property's own examples
         "prog 1 1 3 - conde 2 1 never 1 eq v0 i1",
+        "prog 1 1 3 - conde 2 1 call spin 0 1 eq v0 i1",
+        "prog 1 1 3 - conde 3 1 call spin 1 v0 1 eq v0 i1 2 always eq v0 i2",
         "prog 1 1 12 - conde 2 2 always eq v0 i1 2 always eq v0 i2",
         "prog 1 1 6 - conde 3 1 never 2 always eq v0 i1 1 eq v0 i2",
         "prog 1 1 6 - conde 2 1 never 1 conde 2 1 never 1 eq v0 i3",
